@@ -35,9 +35,14 @@ REGRESSION = [  # far-field position bands where the piecewise quadrature used t
 def gen(rng, i, tier):
     if i in (3, 7):
         return dict(REGRESSION[(i - 3) // 4])
-    eps = choice(rng, [0.1, 1.0, logu(rng, 0.05, 2.0)])
-    return dict(trad_bc_ev=logu(rng, 10, 1e4), opac=logu(rng, 0.1, 10), eps=eps, x=uni(rng, 0.3, 4.0), tau=logu(rng, 0.1, 20),
-                kind=["pde", "pde", "marshak", "decay"][i % 4])
+    # epsilon = 4a/alpha "from 0.1 to 1 and beyond": the two tabulated values, larger ones (a small specific-heat
+    # coefficient) enumerated, the rest drawn over 0.05 ... 20
+    eps = [0.1, 1.0, 10.0, 3.0, 20.0, 0.3][(i // 4) % 6] if (i // 4) % 2 == 0 else logu(rng, 0.05, 20.0)
+    kind = ["pde", "pde", "marshak", "decay"][i % 4]
+    tau = logu(rng, 0.1, 20)
+    if kind == "marshak" and rng.random() < 0.5:
+        tau = uni(rng, 1.0, 5.0)
+    return dict(trad_bc_ev=logu(rng, 10, 1e4), opac=logu(rng, 0.1, 10), eps=eps, x=uni(rng, 0.3, 4.0), tau=tau, kind=kind)
 
 
 def rng_for(p):
@@ -82,7 +87,9 @@ def run(ctx, p):
         _, ut, e_ut, _, _ = derivs9(Ut, ht)
         _, vt, e_vt, _, _ = derivs9(Vt, ht)
         # quadrature noise of the solver (tol 1e-6 relative) amplified by the stencils
-        nz = 3e-7 * max(u, 1e-12)
+        # (relative 3e-7 where u is of order one; the integrals carry an absolute, point-to-point noise of a few 1e-8, which is what
+        #  counts where u and v are small - large epsilon at early times, the foot of the wave)
+        nz = 3e-7 * max(u, 1e-12) + 3e-8
         e_uxx += 16 * nz / (hx / 2) ** 2 * 0.1
         e_ut += 4 * nz / (ht / 2) * 0.3
         e_vt += 4 * nz / (ht / 2) * 0.3
@@ -95,12 +102,16 @@ def run(ctx, p):
         ctx.observe("so.order", "SuOlson", bool(np.all(V <= U * (1 + 1e-5) + 5e-5) and np.all(U <= 1 + 1e-5) and np.all(V >= -5e-5) and np.all(U >= -5e-5)), branch=br,
                     detail=dict(det2, U=U.tolist(), V=V.tolist()))
     elif p["kind"] == "marshak":
-        h = 0.05
-        U, V = uv(ctx, s, z_of(np.arange(5) * h), t, Tbc)
-        ux = (-25 * U[0] + 48 * U[1] - 36 * U[2] + 16 * U[3] - 3 * U[4]) / (12 * h)
-        lhs = U[0] - (2.0 / RT3) * ux
-        # noise 2e-6/h in u_x; truncation of the one-sided stencil ~ h^4 u^(5)/5
-        tol = 2e-4
+        # one-sided 4th-order stencil at two spacings: the finer one is the value, their difference the truncation estimate
+        # (the boundary layer is sqrt(tau/epsilon) thick: steep for large epsilon at early times); noise 2e-6/h in u_x
+        h = min(0.05, 0.2 * math.sqrt(tau / eps))
+        lh = []
+        for hh in (2 * h, h):
+            U, V = uv(ctx, s, z_of(np.arange(5) * hh), t, Tbc)
+            ux = (-25 * U[0] + 48 * U[1] - 36 * U[2] + 16 * U[3] - 3 * U[4]) / (12 * hh)
+            lh.append(U[0] - (2.0 / RT3) * ux)
+        lhs = lh[1]
+        tol = 2e-4 + 2.0 * abs(lh[1] - lh[0]) + (2.0 / RT3) * 4e-6 / h
         ctx.observe("so.marshak", "SuOlson", abs(lhs - 1.0) <= tol, branch=br, measure=abs(lhs - 1.0), tol=tol, detail=dict(det, u0=float(U[0]), ux=float(ux)))
     else:
         # well ahead of the wave (the radiation front cannot be beyond x = sqrt(3) tau/eps; diffusion adds ~2 sqrt(tau/eps)).
